@@ -13,7 +13,7 @@ func init() { registry["C09"] = propC09 }
 func propC09() *Property {
 	return &Property{
 		ID:          "C09",
-		Explanation: "Static path-fact rules on the three gatekeepers and their wiring. Decided: (R1) the closure that constructs outbox entries returns the activity only on paths that know the owning actor's id is non-nil and that activity.ActorIdentifier().String() equals it; every other return is a NewFailure item, never nil (impostors appear in place as error items); (R2) the same for replies with comment.ParentIdentifier() and the post's id; (R3) wiring: the \"outbox\" collection receives R1's closure and \"replies\"/\"comments\" receive R2's, Collection.construct is stored only from the constructor's parameter, every delivered element of a page is construct(elements[k], c.id) stored at its own slot and following pages inherit the same construct; (R4) NewPostFromObject succeeds only after a loop over all creators (after the fan-out joined) in which every *Actor either has a nil id together with a nil post id, or both non-nil with equal Host — everything else reaches the 'forged creators' error; (R5) the identifier accessors return the validated id fields and nothing else. (R3, addition) every non-nil result of NewCollectionFromObject is the allocation of that call, with the caller's construct stored into it. (R4, addition) the creators loop is left towards a success return only from its header, when the range is exhausted (no break that lets later creators escape the check). (R6) what the gatekeepers let through is added to the page it was loaded for (in-flight flag pairing; the instances of C08.R9). (R8) what getActors lists as authors and recipients comes from NewActor or NewFailure only: the same-host test of the creators looks at actors. Not decided: end-to-end behaviour on generated worlds; that string equality of URLs is the right notion of identity.",
+		Explanation: "Static path-fact rules on the three gatekeepers and their wiring. Decided: (R1) the closure that constructs outbox entries returns the activity only on paths that know the owning actor's id is non-nil and that activity.ActorIdentifier().String() equals it; every other return is a NewFailure item, never nil (impostors appear in place as error items); (R2) the same for replies with comment.ParentIdentifier() and the post's id; (R3) wiring: the \"outbox\" collection receives R1's closure and \"replies\"/\"comments\" receive R2's, Collection.construct is stored only from the constructor's parameter, every delivered element of a page is construct(elements[k], c.id) stored at its own slot and following pages inherit the same construct; (R4) NewPostFromObject succeeds only after a loop over all creators (after the fan-out joined) in which every *Actor either has a nil id together with a nil post id, or both non-nil with equal Host — everything else reaches the 'forged creators' error; (R5) the identifier accessors return the validated id fields and nothing else. (R3, addition) every non-nil result of NewCollectionFromObject is the allocation of that call, with the caller's construct stored into it. (R4, addition) the creators loop is left towards a success return only from its header, when the range is exhausted (no break that lets later creators escape the check). (R6) what the gatekeepers let through is added to the page it was loaded for (in-flight flag pairing; the instances of C08.R9). (R8) what getActors lists as authors and recipients comes from NewActor or NewFailure only: the same-host test of the creators looks at actors. (R9 = C05.R4) the gatekeepers hand NewFailure a non-nil error: a rejected entry is an error item, not a crash. Not decided: end-to-end behaviour on generated worlds; that string equality of URLs is the right notion of identity.",
 		Assumptions: []string{"the ids compared are the validated ids established by C02"},
 		Rules: []Rule{
 			{ID: "C09.R1", Title: "outbox gatekeeper compares the activity's actor with the owner", Floor: 2, Run: func(c *Ctx) { c09Gate(c, "NewActorFromObject", "NewActivity", "ActorIdentifier") }},
@@ -22,6 +22,7 @@ func propC09() *Property {
 			{ID: "C09.R4", Title: "authors live on the post's host", Floor: 1, Run: c09R4},
 			{ID: "C09.R5", Title: "identifier accessors return validated ids only", Floor: 5, Run: c09R5},
 			{ID: "C09.R6", Title: "checked replies and timeline entries are added to the page they were loaded for (same instances as C08.R9)", Floor: 8, Run: c08R9},
+			{ID: "C09.R9", Title: "a rejected entry appears as an error item: the gatekeepers hand NewFailure an error that is not nil (same instances as C05.R4)", Floor: 18, Run: c05R4},
 			{ID: "C09.R8", Title: "the authors and recipients of a post are actors or error items: what getActors puts into its list comes from NewActor or NewFailure, nothing else — the same-host test of the creators looks at actors only", Floor: 1, Run: c09R8},
 			{ID: "C09.R7", Title: "the ids the gatekeepers compare are ids the documents carry: FetchUnknown never invents one (same instances as C02.R3)", Floor: 4, Run: c02R3},
 		},
